@@ -88,11 +88,12 @@ Proof. exact hex_numeral_iff_lemma. Qed.
 Print Assumptions hex_numeral_iff.
 
 (* tonumber with an explicit base 2..36: base 10 is the general reader; any other base reads an
-   optionally signed integer in that base (blanks around), inside the int64 range, and nothing else *)
+   optionally signed integer in that base (base 16: optional 0x), blanks around, of any size, and
+   nothing else *)
 Theorem tonumber_base_spec : forall b s v, 2 <= b <= 36 ->
   (tonumber s (Some b) = Some v <->
    if b =? 10 then Numeral s (fst v) (snd v)
-   else exists z, v = (z, 0) /\ RadixNumeral b s z /\ in_int64 z).
+   else exists z, v = (z, 0) /\ RadixNumeral b s z).
 Proof. exact tonumber_base_spec_lemma. Qed.
 Print Assumptions tonumber_base_spec.
 
